@@ -639,6 +639,8 @@ def r14_4(ctx, rc):
     # a failure of the move itself surfaces: the only outcome that may be
     # turned into "there was no file" is exactly FileNotFoundError
     prog = ctx.prog
+    covered_moves = []
+    all_moves = []
     for f0 in [F] + [g for g in prog.funcs.values()
                      if g.cls == F.cls and not g.is_public and any(
                          isinstance(h, Func) and h is g
@@ -649,6 +651,7 @@ def r14_4(ctx, rc):
                     set(x for x in prog.resolve_call(call, f0)
                         if isinstance(x, str))):
                 continue
+            all_moves.append((f0, call))
             node = call
             while node is not None and node is not f0.node:
                 par = prog.parent(node)
@@ -664,6 +667,34 @@ def r14_4(ctx, rc):
                             '/'.join(names), f0.qualname)
                         reraises = bool(h.body) and isinstance(
                             h.body[-1], ast.Raise)
+                        covered_moves.append(call)
+                        if names == ['FileNotFoundError'] and not reraises:
+                            # "the file was not there" may only be
+                            # concluded from the move itself: no other
+                            # file-system primitive stands in that try body
+                            # (a failed makedirs of the backup directory
+                            # would be taken for "nothing to back up")
+                            others = [c for b in par.body
+                                      for c in ast.walk(b)
+                                      if isinstance(c, ast.Call) and
+                                      c is not call and any(
+                                          isinstance(g, str) and
+                                          ctx.E.eff.classify(g, c, f0)[1]
+                                          for g in prog.resolve_call(c, f0))]
+                            k2 = 'only the move is under the not-found ' \
+                                'handler in ' + f0.qualname
+                            if others:
+                                rc.violation(
+                                    'not-found-too-wide | ' + f0.qualname,
+                                    'the handler that turns '
+                                    'FileNotFoundError into "there was no '
+                                    'file" also covers %s: its failure is '
+                                    'swallowed, the file is overwritten in '
+                                    'place without a backup' % ast.unparse(
+                                        others[0].func),
+                                    prog.loc(f0, others[0]), key=k2)
+                            else:
+                                rc.ok({'try_body': 'the move only'}, key=k2)
                         if names == ['FileNotFoundError'] or reraises:
                             rc.ok({'handler': key}, key=key)
                         else:
@@ -677,6 +708,21 @@ def r14_4(ctx, rc):
                                 'place and rollback cannot restore it' %
                                 '/'.join(names), prog.loc(f0, h), key=key)
                 node = par
+    # the file can vanish between any test and the move (another thread
+    # moves the same stale output aside): the move tolerates that - its
+    # FileNotFoundError is handled, not propagated
+    for f0, call in all_moves:
+        key = 'the move in %s tolerates a vanished file' % f0.qualname
+        if any(call is c for c in covered_moves):
+            rc.ok({'move': 'inside try/except'}, key=key)
+        else:
+            rc.violation(
+                'move-not-tolerant | ' + f0.qualname,
+                'the move in %s is not inside a handler: when two threads '
+                'move the same old output aside, the loser gets a '
+                'FileNotFoundError out of build_file and its output is '
+                'never built (an existence test before the move does not '
+                'help)' % f0.qualname, prog.loc(f0, call), key=key)
     # nothing may fail between reserving the slot and the move except the
     # creation of the backup directory (nothing moved yet)
     pre = sg.reach([sg.entry], avoid=lambda x: x.kind == 'leaf' and
